@@ -113,6 +113,7 @@ type scall struct {
 	done     bool
 	err      error
 	lastSent *minfo
+	lastGood *minfo
 	w        *world
 }
 
@@ -423,6 +424,9 @@ func (w *world) sessReq(s *scall, seq uint64, r reqSpec) {
 		r.mi.call, r.mi.subSeq = s.id, seq
 		r.mi.subEpoch, r.mi.hadSess = w.epochOf(s)
 		s.lastSent = r.mi
+		if r.mi.kind == "good" {
+			s.lastGood = r.mi
+		}
 	}
 	before := w.srv.VerifState().Fingerprint()
 	ep, had := w.epochOf(s)
@@ -514,6 +518,55 @@ func (w *world) newMsg(signer int, kind string, seqno uint64) *minfo {
 	mi.ver = verr == nil
 	mi.from = w.pidx(from.String())
 	mi.msg = m
+	w.msgs = append(w.msgs, mi)
+	w.byPtr[m] = mi
+	return mi
+}
+
+// derive builds a message from one that was submitted earlier on the same
+// stream, keeping some fields and changing others (stateful attacker).
+//   body    : same seqno, sender and signature bytes, replaced body
+//   hashty  : same body and signature bytes, other hash type in the signature
+//   sender  : same body and signature, from_peer_id replaced by another peer's
+//   reseq   : byte-identical signed message under another message seqno (the seqno is not signed)
+//   same    : byte-identical retransmit (a fresh copy)
+func (w *world) derive(base *minfo, how string) *minfo {
+	w.tags++
+	m := base.msg.CloneVT()
+	mi := &minfo{tag: w.tags, kind: "derived-" + how, signer: base.signer, seqno: base.seqno, call: -1}
+	switch how {
+	case "body":
+		if m.SignedMsg == nil {
+			m.SignedMsg = &peer.SignedMsg{}
+		}
+		m.SignedMsg.Data = []byte(fmt.Sprintf("forged payload %d that was never signed", w.tags))
+	case "hashty":
+		if m.SignedMsg != nil && m.SignedMsg.Signature != nil {
+			if m.SignedMsg.Signature.HashType == hash.HashType_HashType_BLAKE3 {
+				m.SignedMsg.Signature.HashType = hash.HashType_HashType_SHA256
+			} else {
+				m.SignedMsg.Signature.HashType = hash.HashType_HashType_BLAKE3
+			}
+		}
+	case "sender":
+		if m.SignedMsg != nil {
+			m.SignedMsg.FromPeerId = w.peers[(base.signer+1+len(w.peers))%len(w.peers)].str
+		}
+	case "reseq":
+		m.Seqno = base.seqno + 1 + uint64(w.rng.Intn(2))
+		mi.seqno = m.Seqno
+	case "same":
+	default:
+		panic(how)
+	}
+	_, from, verr := m.ExtractAndVerify()
+	mi.ver = verr == nil
+	mi.from = w.pidx(from.String())
+	mi.msg = m
+	// authentic = the real verification under the real key accepts exactly this body
+	if (how == "reseq" || how == "same") && base.kind == "good" {
+		mi.kind = "good"
+	}
 	w.msgs = append(w.msgs, mi)
 	w.byPtr[m] = mi
 	return mi
@@ -724,6 +777,12 @@ func (w *world) oracle(st sigsrv.VerifSnapshot) {
 					w.fail("C20", "forwarded-unknown-message", fmt.Sprintf("S%d received a message no client submitted", s.id))
 					continue
 				}
+				// independent of the harness bookkeeping: what was forwarded must verify,
+				// with the real keys, as signed by the identity of the submitting stream
+				if _, pid, verr := r.m.ExtractAndVerify(); verr != nil || mi.call < 0 || pid.String() != w.peers[w.scalls[mi.call].src].str {
+					w.fail("C20", "forwarded-does-not-verify", fmt.Sprintf("S%d (p%d) received %s msg#%d which does not verify under the key of the stream that submitted it (err=%v)", s.id, s.src, mi.kind, mi.tag, verr))
+					continue
+				}
 				if mi.kind != "good" {
 					w.fail("C20", "forwarded-unauthentic-"+mi.kind, fmt.Sprintf("S%d (p%d) received %s msg#%d", s.id, s.src, mi.kind, mi.tag))
 					continue
@@ -798,13 +857,13 @@ func (w *world) liveL() []*lcall {
 }
 
 // weights per property: listen, attach, valid traffic, malicious traffic, detach
-type profile struct{ listen, attach, traffic, evil, detach, badStart int }
+type profile struct{ listen, attach, traffic, evil, stateful, detach, badStart int }
 
 var profiles = map[string]profile{
-	"C20": {listen: 1, attach: 5, traffic: 8, evil: 8, detach: 2, badStart: 2},
-	"C22": {listen: 1, attach: 8, traffic: 7, evil: 2, detach: 5, badStart: 1},
-	"C24": {listen: 6, attach: 8, traffic: 1, evil: 1, detach: 6, badStart: 1},
-	"C25": {listen: 6, attach: 7, traffic: 2, evil: 2, detach: 7, badStart: 1},
+	"C20": {listen: 1, attach: 5, traffic: 8, evil: 6, stateful: 6, detach: 2, badStart: 2},
+	"C22": {listen: 1, attach: 8, traffic: 7, evil: 2, stateful: 2, detach: 5, badStart: 1},
+	"C24": {listen: 6, attach: 8, traffic: 1, evil: 1, stateful: 0, detach: 6, badStart: 1},
+	"C25": {listen: 6, attach: 7, traffic: 2, evil: 2, stateful: 1, detach: 7, badStart: 1},
 }
 
 func (w *world) lastRecv(s *scall) (uint64, bool) {
@@ -836,7 +895,7 @@ func (w *world) seqFor(s *scall, style int) uint64 {
 func (w *world) script(nops int, pf profile) {
 	np := len(w.peers)
 	const maxL, maxS = 7, 12
-	total := pf.listen + pf.attach + pf.traffic + pf.evil + pf.detach + pf.badStart
+	total := pf.listen + pf.attach + pf.traffic + pf.evil + pf.stateful + pf.detach + pf.badStart
 	for i := 0; i < nops; i++ {
 		x := w.rng.Intn(total)
 		switch {
@@ -930,7 +989,27 @@ func (w *world) script(nops int, pf profile) {
 				w.sessReq(s, 0, rEOF())
 				w.c.Class("op-stream-error")
 			}
-		case x < pf.listen+pf.attach+pf.traffic+pf.evil+pf.detach:
+		case x < pf.listen+pf.attach+pf.traffic+pf.evil+pf.stateful:
+			// stateful attacker: variants derived from what this stream submitted before
+			var cands []*scall
+			for _, s := range w.liveS() {
+				if s.lastSent != nil {
+					cands = append(cands, s)
+				}
+			}
+			if len(cands) == 0 {
+				continue
+			}
+			s := cands[w.rng.Intn(len(cands))]
+			hows := []string{"body", "body", "hashty", "sender", "reseq", "same", "same"}
+			how := hows[w.rng.Intn(len(hows))]
+			base := s.lastSent
+			if base.kind != "good" && s.lastGood != nil && w.rng.Intn(2) == 0 {
+				base = s.lastGood
+			}
+			w.sessReq(s, w.seqFor(s, 0), w.rSend(w.derive(base, how)))
+			w.c.Class("op-derived-" + how)
+		case x < pf.listen+pf.attach+pf.traffic+pf.evil+pf.stateful+pf.detach:
 			if w.rng.Intn(3) == 0 {
 				if ls := w.liveL(); len(ls) > 0 {
 					w.listenCancel(ls[w.rng.Intn(len(ls))])
@@ -1148,6 +1227,43 @@ func fixed(c *hx.Ctx) {
 		w.listenStart(1)
 		w.c.Class("fixed-listen")
 		w.finish(true)
+	}
+	// stateful attacker: authentic message, then the same seqno/sender/signature with another body,
+	// also across a re-open, plus legitimate retransmits
+	{
+		w := newWorld(c, 3)
+		a := w.sessStart(0, 0, w.rInit(1), 1, true)
+		w.sessStart(1, 0, w.rInit(0), 0, true)
+		m := w.newMsg(0, "good", 1)
+		w.sessReq(a, w.seqFor(a, 0), w.rSend(m))
+		w.sessReq(a, w.seqFor(a, 0), w.rSend(w.derive(m, "same")))
+		w.sessReq(a, w.seqFor(a, 0), w.rSend(w.derive(m, "reseq")))
+		w.sessReq(a, w.seqFor(a, 0), w.rSend(w.derive(m, "body")))
+		w.c.Class("fixed-stateful")
+		w.finish(false)
+	}
+	{
+		w := newWorld(c, 3)
+		a := w.sessStart(0, 0, w.rInit(1), 1, true)
+		b := w.sessStart(1, 0, w.rInit(0), 0, true)
+		m := w.newMsg(0, "good", 1)
+		w.sessReq(a, w.seqFor(a, 0), w.rSend(m))
+		w.sessCancel(b)
+		w.sessStart(1, 0, w.rInit(0), 0, true) // re-open on a's stream
+		w.sessReq(a, w.seqFor(a, 0), w.rSend(w.derive(m, "same"))) // legitimate retransmit
+		w.sessReq(a, w.seqFor(a, 0), w.rSend(w.derive(m, "hashty")))
+		w.c.Class("fixed-stateful")
+		w.finish(false)
+	}
+	{
+		w := newWorld(c, 3)
+		a := w.sessStart(0, 0, w.rInit(1), 1, true)
+		w.sessStart(1, 0, w.rInit(0), 0, true)
+		m := w.newMsg(0, "good", 2)
+		w.sessReq(a, w.seqFor(a, 0), w.rSend(m))
+		w.sessReq(a, w.seqFor(a, 0), w.rSend(w.derive(m, "sender")))
+		w.c.Class("fixed-stateful")
+		w.finish(false)
 	}
 	// malicious client
 	{
